@@ -51,3 +51,10 @@ func VerifC04_PoolHandlesDisjoint() { c04PoolHandles() }
 //verif:unroll 12
 //verif:noreplay compares heap identities of handles
 func VerifC06_PoolHandlesDisjoint() { c04PoolHandles() }
+
+// VerifC03_PoolHandlesDisjoint: the same harness under C03 (the id a worker was granted is the one its iteration
+// reports only while no other live worker resets the same T).
+//
+//verif:unroll 12
+//verif:noreplay compares heap identities of handles
+func VerifC03_PoolHandlesDisjoint() { c04PoolHandles() }
